@@ -724,7 +724,10 @@ func frame(rng *rand.Rand, items [][]byte, framing string, want int) []byte {
 		return cat(enc(items[:len(items)-1]), []byte{0xff, 0xff})
 	case "vbeyond":
 		last := items[len(items)-1]
-		return cat(enc(items[:len(items)-1]), varint(uint64(len(last)+1+rng.Intn(1000))), last)
+		// mostly just beyond: the announced length exceeds what follows by 1, 2 or 3 bytes - less than the prefix itself is long,
+		// which is where a bounds check that forgets the prefix goes wrong (sweep mutant E/23-C01)
+		k := []int{0, 0, 1, 2, rng.Intn(1000)}[rng.Intn(5)]
+		return cat(enc(items[:len(items)-1]), varint(uint64(len(last)+1+k)), last)
 	case "vwrap":
 		last := items[len(items)-1]
 		return cat(enc(items[:len(items)-1]), varint(uint64(1<<32-1-rng.Intn(5))), last)
